@@ -147,7 +147,85 @@ pub fn run(ctx: &mut Ctx) {
         evaluations += 1;
         distinct.insert(format!("{:?}|{:?}", v, o));
     }
+    // --- items wider than a cache line (anything that dispatches on size_of::<T>())
+    #[derive(Clone, PartialEq, Debug)]
+    struct Wide {
+        a: [u64; 6],
+        id: u8,
+        b: [u64; 6],
+    }
+    let n_wide = if ctx.thorough { 6000 } else { 600 };
+    for i in 0..n_wide {
+        let gen = |rng: &mut Rng| -> L {
+            let n = rng.below(8);
+            let mut l: L = vec![];
+            for _ in 0..n {
+                let x = rng.range(1, 9) as u8;
+                if l.iter().any(|(_, y)| *y == x) {
+                    continue;
+                }
+                l.push((rng.chance(1, 2), x));
+            }
+            l
+        };
+        let (v, o) = if i < 64 { let ls = all_lists(2); (ls[i % ls.len()].clone(), ls[(i / ls.len()) % ls.len()].clone()) } else { (gen(&mut rng), gen(&mut rng)) };
+        let w = |l: &L| -> Vec<(bool, Wide)> { l.iter().map(|(m, x)| (*m, Wide { a: [*x as u64; 6], id: *x, b: [7; 6] })).collect() };
+        let r: L = from_nec(&merge_necessity(to_nec(&w(&v)), to_nec(&w(&o)))).into_iter().map(|(m, x)| (m, x.id)).collect();
+        let t = |l: &L| coq_list(l, |(m, x)| format!("({},{})", coq_tag(*m), x));
+        let d = json::obj(vec![("kind", json::s("wide-items")), ("item_type", json::s("a 104-byte struct compared field by field")), ("vec", jl(&v)), ("other", jl(&o)), ("impl", jl(&r))]);
+        sh.push(format!("Build_c15case {} {} {}", t(&v), t(&o), t(&r)), d);
+        hist.add("wide-items-104-bytes");
+        evaluations += 1;
+    }
     let mut files = sh.finish();
+
+    // --- items whose equality is coarser than identity: a key with a payload; the merged list
+    //     keeps the first list's item where both lists have the key
+    {
+        #[derive(Clone, Debug)]
+        struct Keyed {
+            key: u8,
+            origin: u8,
+        }
+        impl PartialEq for Keyed {
+            fn eq(&self, o: &Keyed) -> bool {
+                self.key == o.key
+            }
+        }
+        let kevals = vec![
+            Eval { label: "corr", func: "c15_corr2 key_eqb pair_eqb".into(), role: "corr" },
+            Eval { label: "oracle", func: "c15_oracle key_eqb".into(), role: "oracle" },
+            Eval { label: "hyp", func: "c15_in_hyp key_eqb".into(), role: "hyp" },
+        ];
+        let mut sh = Shards::new(&ctx.out, "keyed", imports, "@c15case (N * N)", kevals, "fun c => merge_necessity key_eqb (c_v c) (c_o c)", 4000);
+        let n_keyed = if ctx.thorough { 20000 } else { 1500 };
+        let ls = all_lists(2);
+        for i in 0..n_keyed {
+            let gen = |rng: &mut Rng| -> L {
+                let n = rng.below(7);
+                let mut l: L = vec![];
+                for _ in 0..n {
+                    let x = rng.range(1, 7) as u8;
+                    if l.iter().any(|(_, y)| *y == x) {
+                        continue;
+                    }
+                    l.push((rng.chance(1, 2), x));
+                }
+                l
+            };
+            let (v, o) = if i < ls.len() * ls.len() { (ls[i % ls.len()].clone(), ls[i / ls.len()].clone()) } else { (gen(&mut rng), gen(&mut rng)) };
+            let kv = |l: &L, origin: u8| -> Vec<(bool, Keyed)> { l.iter().map(|(m, x)| (*m, Keyed { key: *x, origin })).collect() };
+            let r = from_nec(&merge_necessity(to_nec(&kv(&v, 1)), to_nec(&kv(&o, 2))));
+            let t = |l: &L, origin: u8| coq_list(l, |(m, x)| format!("({},({},{}))", coq_tag(*m), x, origin));
+            let rt = coq_list(&r, |(m, x)| format!("({},({},{}))", coq_tag(*m), x.key, x.origin));
+            let rj = J::A(r.iter().map(|(m, x)| json::s(format!("{}{} (from list {})", if *m { "M" } else { "O" }, x.key, x.origin))).collect());
+            let d = json::obj(vec![("kind", json::s("keyed-items")), ("item_type", json::s("a key with a payload, equal when the keys are equal")), ("vec", jl(&v)), ("other", jl(&o)), ("impl", rj)]);
+            sh.push(format!("Build_c15case {} {} {}", t(&v, 1), t(&o, 2), rt), d);
+            hist.add("keyed-items-coarse-equality");
+            evaluations += 1;
+        }
+        files.extend(sh.finish());
+    }
 
     // --- String items (the instance the parser uses)
     let pool = ["a", "b", "id", "xmlns:p", "p:id", "Ид", "type", "x-y"];
@@ -187,7 +265,7 @@ pub fn run(ctx: &mut Ctx) {
     ctx.meta.push(("evaluations", J::N(evaluations)));
     ctx.meta.push(("distinct_nontrivial", J::N(distinct.len() as i64)));
     ctx.meta.push(("rule", json::s(format!(
-        "all {n}x{n} pairs of duplicate-free tagged lists over an alphabet of {k} u8 items (exhaustive), {r} random pairs over 8 items with length <= 8 (a quarter with duplicates, outside the hypothesis: model-vs-implementation only), {s} random pairs of String items; non-trivial = both lists non-empty, distinct by (vec, other)",
+        "all {n}x{n} pairs of duplicate-free tagged lists over an alphabet of {k} u8 items (exhaustive), {r} random pairs over 8 items with length <= 8 (a quarter with duplicates, outside the hypothesis: model-vs-implementation only), {s} random pairs of String items, pairs of 104-byte items and of keyed items whose equality ignores a payload (which of two equal items survives is compared); non-trivial = both lists non-empty, distinct by (vec, other)",
         n = lists.len(), k = k, r = n_rand, s = n_str))));
     ctx.meta.push(("exhaustive_part", json::s(format!("all pairs over alphabet size {}", k))));
     ctx.meta.push(("histogram", hist.json()));
